@@ -676,7 +676,8 @@ class World:
             return
         dterm = it.refine(dterm)
         for ent in list(it.lazy_inv):
-            if not it.refine(ent['dict']).eq(dterm):
+            if not (it.refine(ent['dict']).eq(dterm)
+                    or simp(V.dhas(it.refine(ent['dict']))).eq(simp(V.dhas(dterm)))):
                 continue
             tag = (ent['field'], ent['obj'].t.get_id(), it.refine(key).get_id(), id(ent))
             if tag in it.lazy_done:
